@@ -40,7 +40,16 @@ def normOp : Op → Op
   | .secured id => .secured (id % 6)
   | op => op
 
+/-- every operation of the block list is atomic in the model, so a placement can only be lost to a
+placement — never to a look-up: the fresh block is in force after a concurrent look-up and
+placement, in either order -/
+def handleRace (impl : Json) : CaseResult :=
+  let lost := jnat impl "fresh_blocks_lost"
+  { model := mkObj [("fresh_blocks_lost", 0)], spec := lost == 0,
+    why := if lost == 0 then "" else "block-placed-during-a-look-up-was-lost" }
+
 def handle (inp impl : Json) : CaseResult :=
+  if jstr inp "tag" == "race-expiry-vs-block" then handleRace impl else
   let ops := ((jarr inp "ops").toList.map opOf).map normOp
   let m := run init ops
   let as := (jarr impl "answers").toList.map ansOf
